@@ -416,9 +416,17 @@ func runC16(c *Ctx) {
 				switch name {
 				case "io.ReadFull":
 					dst, ok := cc.Args[1].(*ssa.Slice)
-					okEnv := ok && types.Identical(dst.X.Type().(*types.Pointer).Elem(), ebT)
+					okEnv := ok && sliceIsOverArray(dst, ebT)
+					if ok && !okEnv && dst.High != nil {
+						// a payload read sized by the decoded envelope length is also one unit
+						for _, l := range Origins(dst.High) {
+							if l.Kind == "call" && l.Call.Common().StaticCallee() != nil && l.Call.Common().StaticCallee().Name() == "processRequestEnvelope" {
+								okEnv = true
+							}
+						}
+					}
 					c.Check(okEnv, "C16.4", FuncName(fn), "unit:envelope", call.Pos(),
-						"reads exactly one envelope (ReadFull into the 5-byte array)", "ReadFull on the client body with a destination that is not the envelope array")
+						"reads exactly one unit (ReadFull into the 5-byte envelope array, or a slice sized by the decoded length)", "ReadFull on the client body with a destination that is neither the envelope array nor sized by the decoded envelope length")
 				case "io.CopyN":
 					bounded := false
 					for _, l := range Origins(cc.Args[2]) {
